@@ -236,7 +236,9 @@ pub fn rankdef_case<T: Sc>(rng: &mut Rng, idx: usize) -> StateCase<T> {
     let y = random_data::<T>(rng, &recipe, s, false);
     let wkind = *rng.pick(&[WKind::None, WKind::Positive, WKind::Ones]);
     let w = random_weights(rng, wkind, recipe.n(), recipe.m()).map(|w| w.iter().map(|v| T::of(*v)).collect());
-    let eps = Some(T::of(if T::WIDTH == 32 { 1e-3 } else { 1e-7 } * if idx % 2 == 0 { 1.0 } else { -1.0 }));
+    // far above the band within which two SVDs may disagree about a vanishing singular value
+    // (backward error times sigma_max), far below the singular values that remain
+    let eps = Some(T::of(if T::WIDTH == 32 { 2e-2 } else { 1e-4 } * if idx % 2 == 0 { 1.0 } else { -1.0 }));
     let init: Vec<T> = random_alpha(rng, recipe.p()).iter().map(|v| T::of(*v)).collect();
     let history = vec![random_alpha(rng, recipe.p()).iter().map(|v| T::of(*v)).collect()];
     StateCase {
